@@ -451,6 +451,24 @@ def gen_tx_cases(bdir):
         p = json.loads(line)
         if p["label"] in GEN_TX_LABELS and p["valid"]:
             out.append(dict(label="tx:gen:" + p["label"], pre=["--tx=" + p["tx"], "--txin=" + p["txin"]], script=None, stack=[], expect=("ok", ["01"]), fl=""))
+    # spends whose verdict depends on what one script hands over to the next (open conditionals, alt stack): the reference verdict of the
+    # input (consensus rules: every script closes its own conditionals, the alt stack does not survive a script) is the expectation
+    r = subprocess.run([os.path.join(bdir, "mc_gen"), "plans", "--set", "handover"], stdout=subprocess.PIPE, stderr=subprocess.DEVNULL, text=True, timeout=120)
+    n = 0
+    for line in r.stdout.splitlines():
+        if not line.strip():
+            continue
+        p = json.loads(line)
+        n += 1
+        pre = ["--tx=" + p["tx"], "--txin=" + p["txin"]]
+        fl = ""
+        if not (p["flags"] >> 8) & 1:
+            pre, fl = ["-f-CLEANSTACK"] + pre, "-CLEANSTACK"
+        if p["valid"] and "without CLEANSTACK" in p["label"]:
+            continue      # the final stack of a valid spend that is not clean is not fixed here
+        out.append(dict(label="tx:" + p["label"], pre=pre, script=None, stack=[], expect=("fixed", p["valid"], p["err"], ["01"]), fl=fl))
+    if n < 10:
+        raise RuntimeError("mc_gen plans --set handover produced %d cases" % n)
     return out
 
 
@@ -497,6 +515,8 @@ def check_tx_case(a):
     os.makedirs(cwd, exist_ok=True)
     if tc["expect"][0] == "ok":
         ref_ok, ref_err, exp = True, "OK", tc["expect"][1]
+    elif tc["expect"][0] == "fixed":
+        ref_ok, ref_err, exp = tc["expect"][1], tc["expect"][2], tc["expect"][3]
     else:
         fint = pu.flags_int(pu.apply_flag_list(tc["fl"].split(",") if tc["fl"] else []))
         r = pu.refcli(bdir).run(tc["expect"][1], fint, 0, tc["script"], tc["stack"])
